@@ -110,8 +110,9 @@ impl FarmWorld {
     pub fn legit(&self, pre: &Snap, i: &OpInfo) -> bool {
         let n = self.users.len() as u64;
         let is_user = |u: u64| u >= 1 && u <= n;
-        let zero_consts = pre.cfg.as_ref().map(|c| c.1.iter().any(|f| (&f.c_e + &f.c_f).is_zero())).unwrap_or(false);
-        if zero_consts || !pre.act {
+        // (a configuration with user_rewards_energy_const = user_rewards_farm_const = 0 used to be excused here as an owner
+        //  misconfiguration; it is finding F7 now: setBoostedYieldsFactors must not accept it, so nothing is excused)
+        if !pre.act {
             return false;
         }
         let holds = |c: u64, pays: &[(u64, BigUint)]| -> bool {
